@@ -37,9 +37,10 @@ MIRROR = {"eq": "eq", "ne": "ne", "lt": "gt", "gt": "lt", "le": "ge", "ge": "le"
 # builder
 # ------------------------------------------------------------------------------------------------
 class Builder:
-    def __init__(self, world, inst):
+    def __init__(self, world, inst, share_terms=False):
         self.world = world
         self.inst = inst
+        self.share_terms = share_terms      # e = x.p written once and used in several places of the condition
         self.env = {}
         self.froms = {}
         self.memo = {}
@@ -56,6 +57,10 @@ class Builder:
                 self.env[name] = let(cls, self.world[domkey], name=name)
             elif style == "from":
                 self.env[name] = cls(From(self.world[domkey]))
+            elif style == "lettuple":                  # the domain given as a tuple
+                self.env[name] = let(cls, tuple(self.world[domkey]))
+            elif style == "letgen":                    # ... as a generator
+                self.env[name] = let(cls, (o for o in self.world[domkey]))
             elif style == "let1":                      # the domain is a single object, not a collection
                 self.env[name] = let(cls, self.world[domkey][0])
             elif style == "from1":
@@ -71,6 +76,13 @@ class Builder:
                 raise ValueError(style)
 
     def term(self, t):
+        if self.share_terms and t[0] in ("a", "i", "c", "ck"):
+            if t not in self.memo:
+                self.memo[t] = self._term(t)
+            return self.memo[t]
+        return self._term(t)
+
+    def _term(self, t):
         k = t[0]
         if k == "v":
             return self.env[t[1]]
@@ -124,7 +136,9 @@ class Builder:
         if k == "has":
             return contains(self.term(c[1]), self.term(c[2]))
         if k == "t":
-            return self.term(c[1])
+            # an expression in condition position is a condition of its own: never the same object as another condition
+            # (only VALUE sub-expressions are shared by the `share_terms` form)
+            return self._term(c[1])
         if k == "pf":
             return W.PREDICATE_FUNCS[c[1]](*[self.term(a) for a in c[2]])
         if k == "pc":
@@ -170,9 +184,9 @@ class Builder:
         return {"an": an, "the": the, "infer": infer}[quant](d)
 
 
-def build(q, world, inst, mode="query", predeclare=()):
+def build(q, world, inst, mode="query", predeclare=(), share_terms=False):
     """Returns (query object, builder). Runs inside symbolic_mode() / rule_mode(), as a user would write it."""
-    b = Builder(world, inst)
+    b = Builder(world, inst, share_terms=share_terms)
     with (rule_mode() if mode == "rule" else symbolic_mode()):
         b.declare(predeclare)
         obj = b.query(q)
@@ -403,6 +417,8 @@ def up_decl(v):
         "let": f"{name} = let({clsname}, {domkey})",
         "letn": f"{name} = let({clsname}, {domkey}, name={name!r})",
         "from": f"{name} = {clsname}(From({domkey}))",
+        "lettuple": f"{name} = let({clsname}, tuple({domkey}))",
+        "letgen": f"{name} = let({clsname}, (o for o in {domkey}))",
         "let1": f"{name} = let({clsname}, {domkey}[0])",
         "from1": f"{name} = {clsname}(From({domkey}[0]))",
         "sharedfrom": f"{name} = {clsname}(from_{domkey})   # from_{domkey} = From({domkey}), one shared object",
